@@ -44,6 +44,20 @@ def documents(tier: str) -> List[str]:
 _ST = None
 
 
+def _per_document(run, chunk, max_paths=64):
+    """Runs `run(ctx)` (written for a chunk) once per document, each with its own bounded exploration: forks inside one document (an
+    unknown logging level, an unknown clock) must not multiply across the documents of a chunk."""
+    from .model import AnalysisError
+    rows_all = []
+    for d in chunk:
+        try:
+            for ctx, rows in explore(lambda c, d=d: run(c, [d]), max_paths):
+                rows_all.extend(rows)
+        except AnalysisError as e:
+            rows_all.append((d, "undecided", str(e)))
+    return rows_all
+
+
 def _work(chunk):
     P = _ST
     from .props.common import call_func, driver_interp
@@ -52,11 +66,11 @@ def _work(chunk):
     lib_cls = P.cls("library", "Library")
     bad, undecided = [], []
 
-    def run(ctx):
+    def run(ctx, docs):
         it = driver_interp(P, ctx, "entrypoint")
         it.MAX_LOOP = 4000
         out = []
-        for d in chunk:
+        for d in docs:
             stage = "parse_string"
             try:
                 lib = call_func(it, ps, d)
@@ -77,14 +91,17 @@ def _work(chunk):
                 out.append((d, "undecided", f"{stage}: analyser recursion"))
         return out
     n_ok = 0
-    for ctx, rows in explore(run, 20):
-        for d, st, msg in rows:
-            if st == "ok":
-                n_ok += 1
-            elif st == "bad" and len(bad) < 10:
-                bad.append((d, msg))
-            elif st == "undecided" and len(undecided) < 5:
-                undecided.append((d, msg))
+    seen_ok = set()
+    for d, st, msg in _per_document(run, chunk):
+        if st == "ok":
+            if d not in seen_ok:
+                seen_ok.add(d)
+        elif st == "bad" and len(bad) < 10:
+            bad.append((d, msg))
+        elif st == "undecided" and len(undecided) < 5:
+            undecided.append((d, msg))
+    decided_bad = {b[0] for b in bad}
+    n_ok = len(seen_ok - decided_bad - {u[0] for u in undecided})
     return {"ok": n_ok, "bad": bad, "undecided": undecided, "n": len(chunk)}
 
 
@@ -148,11 +165,11 @@ def _tiling_work(chunk):
     spl = P.cls("splitter", "Splitter")
     bad, ok, und = [], 0, []
 
-    def run(ctx):
+    def run(ctx, docs):
         it = driver_interp(P, ctx, "entrypoint")
         it.MAX_LOOP = 4000
         out = []
-        for d in chunk:
+        for d in docs:
             try:
                 lib1 = it.call_value(it.get_attr(it.construct(spl, [d], {}), "split"), [], {})
                 a = [_describe(it, b)[2:4] for b in it.iterate(it.get_attr(lib1, "blocks"))]
@@ -183,14 +200,15 @@ def _tiling_work(chunk):
             except (Unsupported, LoopBound) as e:
                 out.append((d, "undecided", str(e)))
         return out
-    for ctx, rows in explore(run, 20):
-        for d, st, msg in rows:
-            if st == "ok":
-                ok += 1
-            elif st == "bad" and len(bad) < 10:
-                bad.append((d, msg))
-            elif st == "undecided" and len(und) < 5:
-                und.append((d, msg))
+    seen_ok = set()
+    for d, st, msg in _per_document(run, chunk):
+        if st == "ok":
+            seen_ok.add(d)
+        elif st == "bad" and len(bad) < 10:
+            bad.append((d, msg))
+        elif st == "undecided" and len(und) < 5:
+            und.append((d, msg))
+    ok = len(seen_ok - {b[0] for b in bad} - {u[0] for u in und})
     return {"ok": ok, "bad": bad, "undecided": und, "n": len(chunk)}
 
 
@@ -207,7 +225,7 @@ def _context_work(chunk):
     ps = P.func("entrypoint", "parse_string")
     bad, ok, und = [], 0, []
 
-    def run(ctx):
+    def run(ctx, docs):
         it = driver_interp(P, ctx, "entrypoint")
         it.MAX_LOOP = 4000
         out = []
@@ -215,10 +233,10 @@ def _context_work(chunk):
         try:
             alone1, alone2 = desc(call_func(it, ps, D1)), desc(call_func(it, ps, D2))
         except (Raised, Unsupported, LoopBound) as e:
-            return [(x, "undecided", f"the documents alone: {e}") for x in chunk]
+            return [(x, "undecided", f"the documents alone: {e}") for x in docs]
         shift = lambda ds, n: [(c, k, r, (l + n if isinstance(l, int) else l), (ct[0], [(fk, fv, fl + n) for fk, fv, fl in ct[1]]) if c == "Entry" or isinstance(ct, tuple) and len(ct) == 2 and isinstance(ct[1], list) else ct)
                                for c, k, r, l, ct in ds]
-        for x in chunk:
+        for x in docs:
             text = D1 + x + "\n" + D2
             try:
                 got = desc(call_func(it, ps, text))
@@ -237,14 +255,15 @@ def _context_work(chunk):
             else:
                 out.append((x, "ok", None))
         return out
-    for ctx, rows in explore(run, 20):
-        for d, st, msg in rows:
-            if st == "ok":
-                ok += 1
-            elif st == "bad" and len(bad) < 10:
-                bad.append((d, msg))
-            elif st == "undecided" and len(und) < 5:
-                und.append((d, msg))
+    seen_ok = set()
+    for d, st, msg in _per_document(run, chunk, 256):
+        if st == "ok":
+            seen_ok.add(d)
+        elif st == "bad" and len(bad) < 10:
+            bad.append((d, msg))
+        elif st == "undecided" and len(und) < 5:
+            und.append((d, msg))
+    ok = len(seen_ok - {b[0] for b in bad} - {u[0] for u in und})
     return {"ok": ok, "bad": bad, "undecided": und, "n": len(chunk)}
 
 
